@@ -3,15 +3,15 @@
  "property": "C12",
  "standin": "B-gsu",
  "bound": "displays with <= 3 elements x 4 layouts x 4 kinds x delete subsets x 5 insert patterns (1500 sampled cases quick / all thorough) through the real apply_all + new_code",
- "input": "('list', 'multi', (), (), {0: ['7']})",
- "detail": "result does not parse (invalid syntax): \"x = '\u00e4\u00f6'; v =7 []  # tail\\ny = 2\\n\""
+ "input": "('tuple', 'multi', ('1', '0+2', '\"\"\"a\\nb\"\"\"'), (0, 2), {0: ['7']})",
+ "detail": "result does not parse (unmatched ')'): \"x = '\u00e4\u00f6'; v =7, 0+2)  # tail\\ny = 2\\n\""
 }
 """
 
 import sys, tempfile
 sys.path.insert(0, "/verif")
 from bounded.b_gsu import one_case
-msg = one_case(tempfile.mkdtemp(), *('list', 'multi', (), (), {0: ['7']}))
-print(('list', 'multi', (), (), {0: ['7']}), "->", msg)
+msg = one_case(tempfile.mkdtemp(), *('tuple', 'multi', ('1', '0+2', '"""a\nb"""'), (0, 2), {0: ['7']}))
+print(('tuple', 'multi', ('1', '0+2', '"""a\nb"""'), (0, 2), {0: ['7']}), "->", msg)
 assert msg is None, msg
 
